@@ -371,6 +371,14 @@ Section Proofs.
   Theorem roundtrip m t v : has_type t v = true -> of_mich t (to_mich m v) = Ok v.
   Proof. intro H. apply (proj1 (roundtrip_all t v H)). Qed.
 
+  (* two values of a type with the same rendering are equal *)
+  Lemma to_mich_injective m t v1 v2 :
+    has_type t v1 = true -> has_type t v2 = true -> to_mich m v1 = to_mich m v2 -> v1 = v2.
+  Proof.
+    intros H1 H2 E. pose proof (roundtrip m t v1 H1) as R1. pose proof (roundtrip m t v2 H2) as R2.
+    rewrite E in R1. congruence.
+  Qed.
+
   (* the comb rule, stated on its own: a right comb of n leaves *)
   Lemma comb_length_ge_2 m a b : (2 <= List.length (comb m (VPair a b)))%nat.
   Proof. destruct (comb_pair_shape m a b) as (c & cs & ->). cbn [List.length]. lia. Qed.
